@@ -496,7 +496,7 @@ handle_arglist(spif_int32_t n, spif_charptr_t val_ptr, unsigned char hasequal,
         for (k = 0; k < len; k++) {
             tmp[k] = (spif_charptr_t) STRDUP(argv[k + i]);
             D_OPTIONS(("tmp[%d] == %s\n", k, tmp[k]));
-            if (SPIFOPT_FLAGS_IS_SET(SPIFOPT_SETTING_REMOVE_ARGS)) {
+            if (!SPIFOPT_FLAGS_IS_SET(SPIFOPT_SETTING_PREPARSE) && SPIFOPT_FLAGS_IS_SET(SPIFOPT_SETTING_REMOVE_ARGS)) {
                 argv[k + i] = NULL;
             }
         }
@@ -655,6 +655,12 @@ spifopt_parse(int argc, char *argv[])
         } else if (SPIFOPT_OPT_IS_ARGLIST(j)) {
             if (SHOULD_PARSE(j)) {
                 handle_arglist(j, val_ptr, hasequal, i, argc, argv);
+            } else if (!hasequal && !SPIFOPT_FLAGS_IS_SET(SPIFOPT_SETTING_PREPARSE)
+                       && SPIFOPT_FLAGS_IS_SET(SPIFOPT_SETTING_REMOVE_ARGS)) {
+                /* The list belongs to the pre-parse pass, but its arguments are still not non-option words. */
+                for (; i < argc; i++) {
+                    argv[i] = NULL;
+                }
             }
             if (!hasequal) {
                 break;
